@@ -286,7 +286,10 @@ def cli_names(draw, switches):
         stem = stem.replace("-", "_")
     if stem.startswith("-"):
         stem = "a" + stem  # a leading dash would be an option, not a file name
-    src = draw(st.sampled_from(["10 PRINT \"HI\"", "10 CLS\n20 GOTO 10", "10 A$=STR$(5):HDRAW A$"]))
+    src = draw(st.sampled_from(["10 PRINT \"HI\"", "10 CLS\n20 GOTO 10", "10 A$=STR$(5):HDRAW A$",
+                                # characters beyond ASCII and beyond Latin-1 in comments, literals and DATA (pasted listings: typographic quotes, dashes, arrows)
+                                "10 REM DON\u2019T PANIC \u2013 OK", "10 PRINT \"CAF\u00c9 \u2192 \u201cX\u201d\"", "10 DATA \u00e9t\u00e9,\u4e2d\n20 READ A$,B$",
+                                "10 A$=\"\x0c\x85\u2028\":PLAY A$"]))
     argv = draw(st.lists(st.sampled_from(["-l", "-z", "-D", "-w"]), unique=True, max_size=3))
     case = {"kind": "cli", "stem": stem, "source": src, "argv": argv, "_meta": {"kind": "cli", "n_mut": 0, "excluded": {}}}
     if draw(st.booleans()):
